@@ -11,6 +11,9 @@ import vlib
 if os.path.exists(os.path.join(vlib.VERIF, "tools", "translate.py")):
     import translate
     translate.regenerate_all()
+if os.path.exists(os.path.join(vlib.VERIF, "tools", "translate17.py")):
+    import translate17
+    translate17.regenerate()
 vlib.write_coqproject()
 targets = [f[:-2] + '.vo' for f in vlib.coq_files() if f.startswith('Properties/')] + vlib.model_vos()
 ok, out = vlib.coq_make(targets, timeout=3000)
